@@ -2,7 +2,7 @@
 import concurrent.futures as cf, os, re, subprocess
 from lib import vlib
 from extract import c01_rows
-from gen import matrix, matrix2
+from gen import matrix, matrix2, matrix3
 
 PROP = "C16"
 META = {
@@ -11,7 +11,7 @@ META = {
             "(validated code never reaches an ill-typed configuration: validate_sound), the semantics used by C01's proofs is the same relation with "
             "trap/stuck merged (exec_eq_execR), and every row of the emit table REGENERATED from the real emitter validates with the operand and result "
             "types its key demands (253 theorems by kernel `decide`). The property's full quantifier (every well-typed program) is explored: an enumerated "
-            "feature matrix (17 value types x 20 usage contexts, 240 ordered function-signature pairs used as function values/closures, 36 ordered pairs of defer kinds) plus generated programs are compiled in a child process by the real pipeline and the binary "
+            "feature matrix (17 value types x 20 usage contexts, 240 ordered function-signature pairs used as function values/closures, 36 ordered pairs of defer kinds, 52 control-flow shapes: self-loops, empty bodies, back edges from every position, labelled break/continue, switch, short-circuit conditions, range loops) plus generated programs are compiled in a child process by the real pipeline and the binary "
             "is validated by V8 (node) — an independent validator.",
     "note": "Trusted: Lean kernel; V8's validator; Go's type checker as the well-typedness oracle for single-source programs. Not verified: that compile.go/"
             "compile_func.go emit valid code for every construct — explored only.",
@@ -70,6 +70,7 @@ def run(ctx):
     # programs: enumerated matrix (+ generated ones when the shared generator is available)
     progs = [("matrix:%s/%s" % k, src) for k, src in matrix.all_programs()]
     progs += [("matrix:%s/%s" % k, src) for k, src in matrix2.all_programs()]
+    progs += [("matrix:%s/%s" % k, src) for k, src in matrix3.all_programs()]      # control-flow shapes
     try:
         from gen import progs as genprogs
         n = 30 if ctx.tier == "quick" else 400
